@@ -458,6 +458,43 @@ func famWire(r *Rng, o *Out, tier string) {
 		}
 		o.emit("(enc.cavs "+sxCavs(cs)+")", hexb(b))
 		o.emit("(dec.cavs "+hexb(b)+")", decCavsObs(b))
+		// "encoding a token is deterministic": a freshly issued proof and a clone of it taken before its first
+		// encoding are the same token and encode to the same bytes, which verify (every sixth round)
+		if i%6 == 0 {
+			ka := r.Bytes(32)
+			if c3, err := macaroon.NewCaveat3P(ka, "https://wire.example"); err == nil {
+				if rn, ok := ticketKey(ka, c3.Ticket); ok {
+					if _, dm, err := macaroon.DischargeTicket(ka, "https://wire.example", c3.Ticket); err == nil {
+						var ops, outs []string
+						for k, kk := 0, r.Intn(4); k < kk; k++ {
+							c := r.plainCav(2) // (values that survive a hop: Clone is an encode and a decode)
+							ops = append(ops, "(add "+sxCav(c)+")")
+							if err := dm.Add(c); err != nil {
+								outs = append(outs, "add:"+addClass(err))
+							} else {
+								outs = append(outs, "add:ok")
+							}
+						}
+						ops = append(ops, "clone")
+						if cl, err := dm.Clone(); err != nil {
+							outs = append(outs, "clone:err")
+						} else if cb, err := cl.Encode(); err != nil {
+							outs = append(outs, "clone:err")
+						} else {
+							outs = append(outs, "clone:"+hx(cb))
+						}
+						ops = append(ops, "encode")
+						if eb, err := dm.Encode(); err != nil {
+							outs = append(outs, "enc:err")
+						} else {
+							outs = append(outs, "enc:"+hx(eb))
+						}
+						o.count("proof.cloneThenEncode")
+						o.emit(fmt.Sprintf("(proof.run %s %s %s %s %s (%s))", hx(ka), hs("https://wire.example"), hx(c3.Ticket), hx(dm.Nonce.Rnd), hx(rn), strings.Join(ops, " ")), strings.Join(outs, " "))
+					}
+				}
+			}
+		}
 		// a token carrying them, minted by the library (attestations are refused on non-proofs: skip those)
 		key := macaroon.NewSigningKey()
 		tok, err := macaroon.New(r.Bytes(pick(r, []int{0, 1, 16, 40})), r.wStr(), key)
